@@ -31,7 +31,11 @@ RULE = ('certificates produced by self_sign, sign_req and derive_cert for random
         'ends, microseconds, UTC-aware starts, starts in fixed-offset zones (whole hours, 5:45, offsets with seconds), starts in zoneinfo zones whose offset changes (daylight saving in both directions incl. the repeated hour with fold=1, 30-minute DST, a skipped calendar day, local-mean-time offsets with seconds, far-future rule years) placed around every change of offset of the zone with durations reaching across it in both directions, a hand-written tzinfo whose offset depends on the day and on fold, a machine zone other than UTC, total certificate size swept across 253 and '
         '65536 for every signer, EC P-256/384/521, RSA-2048 and Ed25519 subject keys and issuer signers (plus HMAC and a synthetic signer '
         'sweeping reserved/real signature lengths across 253), validity start times at year / month / leap-day boundaries '
-        'and durations up to 10^9 s, with the clock patched; the model is handed the instants as (ordinal, second, microsecond, '
+        'and durations up to 10^9 s, with the clock patched; re-entrant signers (a stream over every point of the signer\'s work - '
+        'after write_signature_info, inside get_signature_value_size, before / after the signature is computed - x issuing signers '
+        'of every signature length x what is built from inside: a certificate by another signer of another signature length, a '
+        'certificate by the very same signer object, a Data / Interest packet; plus 5% of the random cases): two issuances '
+        'interleaved, the outer certificate compared with the model, both judged by the oracle; the model is handed the instants as (ordinal, second, microsecond, '
         'fold, offset seconds for that reading, offset for the reading start+expire_sec) + expire_sec and computes the calendar fields of the validity period itself, and the calendar '
         'errors (OverflowError past 9999-12-31, ValueError for 29 Feb + 20 years into a common year) are compared too. '
         'Calendar stream: ymd2ord / ord2ymd / datetime + timedelta(seconds=n) / astimezone(UTC) / replace(year+k) / '
@@ -353,6 +357,9 @@ def _random_case(rng, tier):
         # naming-convention components with a value that is not a number have no URI text (Name.to_str/from_str is
         # another property's business): hand those over as an encoded Name instead
         case['kn_form'] = 'wire'
+    if tier != 'nested' and rng.random() < 0.05:
+        # the signer issues other certificates / builds other packets while it works on this one
+        case['reenter'] = _rand_reenter(rng, tier, case)
     return case
 
 
@@ -546,7 +553,83 @@ def _low_years(rng, tier):
         yield _base(rng, fn='req', now=now, issuer=fast(), us=rng.choice([0, 1]))
 
 
+NESTED_ISSUERS = [['ec256'], ['ec256'], ['ec384'], ['ec521'], ['ec224'], ['ed25519'], ['hmac'], ['digest', 0], ['synth', 72, 64],
+                  ['synth', 40, 0], ['synth', 200, 199]]
+
+
+NESTED_ISSUERS_QUICK = [['ec256'], ['ec224'], ['ed25519'], ['hmac'], ['digest', 0], ['synth', 72, 64], ['synth', 40, 0], ['synth', 200, 199],
+                        ['synth', 72, 71], ['synth', 104, 101]]
+
+
+def _nested_cert_case(rng, tier, outer=None):
+    """a certificate issued from inside the signer of another one: any case of the random stream (with another issuing
+    signer, of another signature length), or - `outer` given - one issued by the very same signer object"""
+    c = _random_case(rng, 'nested')
+    c.pop('kl_seq', None)
+    c['prior'] = 0
+    if outer is not None:
+        c['issuer'] = outer['issuer']
+        for k in ('key_form', 'kl', 'kl_form', 'kl_kind'):
+            c.pop(k, None)
+            if k in outer:
+                c[k] = outer[k]
+    elif c['issuer'][0] == 'rsa2048' or rng.random() < 0.5 or (tier == 'quick' and c['issuer'][0] in ('ec384', 'ec521')):
+        c['issuer'] = rng.choice(NESTED_ISSUERS if tier != 'quick' else NESTED_ISSUERS_QUICK)
+        c.pop('key_form', None)
+        if c['issuer'][0] in ('digest', 'synth'):
+            for k in ('kl', 'kl_form', 'kl_kind'):
+                c.pop(k, None)
+    if c['raw_len'] > 300:
+        c['raw_len'] = 91
+    return c
+
+
+def _rand_reenter(rng, tier, outer, ats=None, kinds=None):
+    """1..2 things the signer of the certificate case `outer` does with the library while it works"""
+    specs = []
+    for _ in range(rng.choice([1, 1, 1, 2])):
+        at = rng.choice(ats or PK.REENTER_AT + ['value-before', 'value-after'])
+        kind = rng.choice(kinds or ['cert', 'cert', 'same', 'pkt', 'pkt'])
+        if kind == 'cert':
+            specs.append({'at': at, 'c16': _nested_cert_case(rng, tier)})
+        elif kind == 'same':
+            specs.append({'at': at, 'c16': _nested_cert_case(rng, tier, outer), 'same': True})
+        else:
+            specs.append({'at': at, 'case': PK.nested_packet_case(rng, tier)})
+    return specs
+
+
+REENTRANT_OUTER = [['ec256'], ['ec384'], ['ec521'], ['ec224'], ['ed25519'], ['hmac'], ['synth', 72, 70], ['synth', 72, 72], ['rsa2048']]
+
+
+def _reentrant(rng, tier):
+    """re-entrancy: every point of the signer's work x issuing signers of every signature length (shrinking and not) x
+    what is built from inside (a certificate by another signer, a certificate by the same signer object, a Data / an
+    Interest packet) x self_sign / sign_req / derive_cert"""
+    outers = REENTRANT_OUTER
+    if tier == 'quick':
+        # (signing and verifying with the real keys is what a case costs: two packets per case here)
+        outers = [['ec256'], rng.choice([['ec384'], ['ec521'], ['ec224']]),
+                  rng.choice([['ed25519'], ['hmac'], ['synth', 72, 70], ['synth', 72, 72]])]
+    for sg in outers:
+        for at in PK.REENTER_AT:
+            for kind in ('cert', 'same', 'pkt'):
+                for rep in range(1 if tier == 'quick' else 3):
+                    kn = [c.hex() for c in PK.rand_name(rng)[:2] if len(c) < 40] + ['08034b4559', PK.rand_comp(rng).hex()]
+                    c = _base(rng, fn=rng.choice(['derive', 'derive', 'self', 'req']), issuer=sg, key_name=kn, start=_rand_time(rng),
+                              now=[2024, 5, 6, 7, 8, 9], subject=rng.choice(['ec256', 'ed25519', 'raw', 'raw']),
+                              raw_len=rng.choice([0, 32, 91, 160, 294]), expire=rng.choice([0, 1, 3600, 86400 * 365]),
+                              prior=rng.choice([0, 0, 1] if tier != 'quick' else [0, 0, 0, 0, 1]))
+                    if c['start'][0] > 9000:
+                        c['start'][0] -= 1000
+                    c['reenter'] = _rand_reenter(rng, tier, c, ats=[at], kinds=[kind])[:1]
+                    if rng.random() < 0.3:
+                        c['reenter'] += _rand_reenter(rng, tier, c)[:1]
+                    yield c
+
+
 def cases(rng, tier):
+    yield from _reentrant(rng, tier)
     yield from _dst_cases(rng, tier)
     yield from _keyish(rng, tier)
     yield from _locators(rng, tier)
@@ -574,6 +657,17 @@ def shrink(case):
         yield dict(case, expire=case['expire'] // 2)
     if case.get('prior', 0) > 1:
         yield dict(case, prior=case['prior'] - 1)
+    if case.get('reenter'):
+        yield {a: b for a, b in case.items() if a != 'reenter'}
+        if len(case['reenter']) > 1:
+            for i in range(len(case['reenter'])):
+                yield dict(case, reenter=case['reenter'][:i] + case['reenter'][i + 1:])
+        if case.get('prior'):
+            yield dict(case, prior=0)
+        for i, sp in enumerate(case['reenter']):
+            if 'c16' in sp:
+                for c2 in shrink(sp['c16']):
+                    yield dict(case, reenter=case['reenter'][:i] + [dict(sp, c16=c2)] + case['reenter'][i + 1:])
 
 
 def _pub_key(case):
@@ -788,32 +882,60 @@ def _requested(case):
         return None, None
 
 
-def _recording(inner):
+def _recording(inner, reentry=None):
     """the signer the library is handed: the real signer object itself (its class, its attributes - whatever the library may
     look at, copy or change is there) with the three signer methods wrapped so that what it was asked and what it produced
-    is on record.  The record is shared by shallow copies of the object."""
+    is on record.  The record is shared by shallow copies of the object.
+    With `reentry` (PK.Reentry) the signer issues other certificates / builds other packets with the library while it works
+    (after it wrote its SignatureInfo, in the length pass, before / after it computed the signature); the record is always
+    that of the call in progress (a nested call with this very object has its own while it lasts)."""
     import copy
     cls = type(inner)
 
     class Rec(cls):
+        def _fire(self, at):
+            if self._reentry is None:
+                return
+            saved = dict(self._log)
+            try:
+                self._reentry.fire(at, self)
+            finally:
+                self._log.clear()
+                self._log.update(saved)
+
         def write_signature_info(self, si):
             cls.write_signature_info(self, si)
             self._log['si'] = si
+            self._fire('info')
 
         def get_signature_value_size(self):
             self._log['reserved'] = cls.get_signature_value_size(self)
+            self._fire('size')
             return self._log['reserved']
 
         def write_signature_value(self, wire, contents):
             self._log['covered'] = [bytes(c) for c in contents]
+            self._fire('value-before')
             n = cls.write_signature_value(self, wire, contents)
             self._log['sig'] = bytes(wire[:n])
+            self._fire('value-after')
             return n
     Rec.__name__, Rec.__qualname__ = cls.__name__, cls.__qualname__
     obj = copy.copy(inner)
     obj.__class__ = Rec
     obj._log = {}
+    obj._reentry = reentry
     return obj
+
+
+def _nested_do(spec, signer):
+    """what the signer of a certificate does from inside: {'c16': a certificate case of this plugin[, 'same': issued with
+    the very signer object that is at work]} -> that case's whole observation (judged by the oracle like any other
+    certificate); {'case': a packet case of PK.make_packet} -> whether it was built (Data / Interest packets are another
+    property's business)"""
+    if 'c16' in spec:
+        return {'at': spec['at'], 'impl': run_impl(spec['c16'], signer if spec.get('same') else None)}
+    return {'at': spec['at'], 'pkt': PK.make_packet(spec['case'])['made'][0]}
 
 
 _DEFAULT_KL = {'hmac': ['k', 'hmac'], 'rsa2048': ['k', 'rsa'], 'ed25519': ['k', 'ed']}
@@ -840,7 +962,8 @@ def _wire_path(fs, vals, path):
     return None
 
 
-def run_impl(case):
+def run_impl(case, signer=None):
+    """`signer`: the (recording) signer object to issue with, for a certificate issued from inside that very signer"""
     if case['fn'] == 'cal':
         return {'made': ['cal'], 'cal': _run_cal(case)}
     from ndn.app_support import security_v2 as sv
@@ -859,7 +982,9 @@ def run_impl(case):
     # name of the certificate it has just obtained); case['kl'] is the one in force for the call under test
     seq = [in_form(e['kl'], e.get('form')) for e in case.get('kl_seq') or []] if kl is not None else []
     # ONE signer object for every call of this case
-    signer = _recording(PK.make_signer(case['issuer'], key_name=seq[0] if seq else kl, key_form=case.get('key_form')))
+    reentry = PK.Reentry(case['reenter'], _nested_do) if case.get('reenter') and signer is None else None
+    if signer is None:
+        signer = _recording(PK.make_signer(case['issuer'], key_name=seq[0] if seq else kl, key_form=case.get('key_form')), reentry)
     key_name = [bytes.fromhex(c) for c in case['key_name']]
     form = case.get('kn_form', 'list')
     if form == 'str':
@@ -906,6 +1031,8 @@ def run_impl(case):
                 else:
                     sv.sign_req('/prior/KEY/%d' % i, b'\x32' * 91, signer)
             signer._log.clear()
+            if reentry is not None:
+                del reentry.records[:]      # (what the signer built while it issued its earlier certificates is not kept)
             clock[0] = now
             if seq:
                 signer.key_locator_name = kl        # the locator in force for the call under test
@@ -934,6 +1061,8 @@ def run_impl(case):
             return out
     finally:
         sv.datetime, sv.timestamp = old
+        if reentry is not None:
+            out['nested'] = reentry.records
     # the requested instants (UTC), worked out apart from the call: None when they are not representable (then a
     # certificate has no business existing, which the comparison with the model reports)
     t0, t1 = _requested(case)
@@ -1035,6 +1164,28 @@ def impl_obs(impl):
 
 
 def oracle(case, impl):
+    why = _oracle1(case, impl)
+    if case.get('reenter') and case['fn'] != 'cal':
+        if why is not None:
+            return why + ' (the signer did other work with the library meanwhile: ' + _reenter_text(case) + ')'
+        # the certificates issued from inside the signer are certificates produced by self-signing / request creation /
+        # issuance too
+        for n in impl.get('nested') or []:
+            spec = case['reenter'][n['i']]
+            if 'c16' in spec:
+                w2 = _oracle1(spec['c16'], n['impl'])
+                if w2 is not None:
+                    return ('certificate issued from inside the signer of another certificate (at %s%s): ' %
+                            (spec['at'], ', by the same signer object' if spec.get('same') else '')) + w2
+    return why
+
+
+def _reenter_text(case):
+    return ', '.join('%s at %s' % ('a certificate' + (' by the same signer object' if s.get('same') else '') if 'c16' in s
+                                   else 'a ' + s['case']['pkt'] + ' packet', s['at']) for s in case['reenter'])
+
+
+def _oracle1(case, impl):
     if impl['made'][0] == 'calendar':
         # ValueError / OverflowError are the calendar's answers (29 Feb + 20 years, beyond year 9999 in the zone the
         # arithmetic is done in): with every requested instant at least a year inside 1..9999 they are not
@@ -1136,6 +1287,11 @@ def tags(case, impl):
         t.append('KEY-components-in-key-name:%d%s' % (min(case['key_name'].count(k), 3),
                                                        ',at-4th-from-end' if case['key_name'][-4:-3] == [k] else ''))
         t.append('verify:' + str(impl['verify']))
+    for sp in case.get('reenter') or []:
+        t.append('reenter:%s:%s' % (sp['at'], ('cert' + (',same-signer' if sp.get('same') else '')) if 'c16' in sp else sp['case']['pkt']))
+        t.append('reenter-outer:%s:%s' % (case['issuer'][0], sp['at']))
+    for n in impl.get('nested') or []:
+        t.append('nested-built:' + (n['impl']['made'][0] if 'impl' in n else n['pkt']))
     return t
 
 
